@@ -838,3 +838,79 @@ AFTER_BODY = [
 
 for _m, _names, _fn in AFTER_BODY:
     globals()["AfterBody_" + _m] = _mk(_m, _names, _fn, "AfterBodyPhase")
+
+
+# ------------------------------------------------------------------------------------------- "in caption" mode
+def caption_in_table_scope(old):
+    return stack_in_scope("caption", "table", old.self.tree.openElements)
+
+
+# --- caption, col, colgroup, tbody, td, tfoot, th, thead, tr start tags and </table>: parse error; act as for </caption>;
+#     reprocess unless that was ignored (no caption in table scope)
+def spec_cap_table_element(old, self, token, result):
+    if not ops_are(self, [("call", "processEndTag", "caption")]):
+        return False
+    return same_object(result, token) if caption_in_table_scope(old) else result is None
+
+
+# --- </caption>: ignored without a caption in table scope; else implied end tags, pop up to and including the caption, clear
+#     the active formatting elements up to the last marker, "in table"
+def spec_cap_end_caption(old, self, token, result):
+    if not caption_in_table_scope(old):
+        return result is None and ops_are(self, []) and grew_by(old, self, 0) and same_object(self.parser.phase, old.self.parser.phase)
+    return (result is None and ops_are(self, [("implied", None)]) and len(self.tree.openElements) < len(old.self.tree.openElements)
+            and same_object(self.parser.phase, self.parser.phases["inTable"]))
+
+
+IN_CAPTION = [
+    ("startTagTableElement", ["caption", "col", "colgroup", "tbody", "td", "tfoot", "th", "thead", "tr"], spec_cap_table_element),
+    ("endTagTable", ["table"], spec_cap_table_element),
+    ("endTagCaption", ["caption"], spec_cap_end_caption),
+    ("endTagIgnore", ["body", "col", "colgroup", "html", "tbody", "td", "tfoot", "th", "thead", "tr"], spec_head_end_other),
+]
+
+for _m, _names, _fn in IN_CAPTION:
+    globals()["InCaption_" + _m] = _mk(_m, _names, _fn, "InCaptionPhase")
+
+
+# ------------------------------------------------------------------------------------------- "in head noscript" mode
+# --- </noscript>: pop the noscript element; "in head"
+def spec_hn_end_noscript(old, self, token, result):
+    return (result is None and ops_are(self, []) and grew_by(old, self, -1)
+            and same_object(self.parser.phase, self.parser.phases["inHead"]))
+
+
+IN_HEAD_NOSCRIPT = [
+    ("startTagHeadNoscript", ["head", "noscript"], spec_head_ignore),
+    ("startTagOther", None, spec_head_anything_else_reprocess),
+    ("endTagBr", ["br"], spec_head_anything_else_reprocess),
+    ("endTagNoscript", ["noscript"], spec_hn_end_noscript),
+    ("endTagOther", None, spec_head_end_other),
+]
+
+for _m, _names, _fn in IN_HEAD_NOSCRIPT:
+    globals()["InHeadNoscript_" + _m] = _mk(_m, _names, _fn, "InHeadNoscriptPhase")
+
+
+# ------------------------------------------------------------------------------------------- "before head" mode
+# --- head: insert; point the head element pointer at it; "in head"
+def spec_bh_head(old, self, token, result):
+    return (result is None and ops_are(self, [("insert", token)]) and grew_by(old, self, 1)
+            and same_object(self.tree.headPointer, self.tree.openElements[-1])
+            and same_object(self.parser.phase, self.parser.phases["inHead"]))
+
+
+# --- anything else (other start tags, </head>, </body>, </html>, </br>): act as if <head> had been seen; reprocess
+def spec_bh_imply_head(old, self, token, result):
+    return same_object(result, token) and ops_are(self, [("call", "startTagHead", "head")])
+
+
+BEFORE_HEAD = [
+    ("startTagHead", ["head"], spec_bh_head),
+    ("startTagOther", None, spec_bh_imply_head),
+    ("endTagImplyHead", ["head", "body", "html", "br"], spec_bh_imply_head),
+    ("endTagOther", None, spec_head_end_other),
+]
+
+for _m, _names, _fn in BEFORE_HEAD:
+    globals()["BeforeHead_" + _m] = _mk(_m, _names, _fn, "BeforeHeadPhase")
